@@ -217,13 +217,13 @@ and anywhere along a chain of restores — a `Put`/`Delete` is possible, is visi
 changes no other key. -/
 theorem restore_accepts_writes (as : List Act) (s : State) (h : run {} as = some s)
     (del : Bool) (k v : Bytes) (rot : Bool) :
-    ∃ s', step { s with alive := true } (.write del k v rot) = some s' ∧
+    ∃ s', step { s with alive := true, replaying := [] } (.write del k v rot) = some s' ∧
       ∀ k', answer (Lsm.get s'.db k') =
         if k = k' then (if del then none else some v) else answer (Lsm.get s.db k') := by
   have hi := inv_run as {} s init_inv h
-  have hi' : Inv { s with alive := true } := hi.congr rfl rfl rfl
+  have hi' : Inv { s with alive := true, replaying := [] } := hi.congr rfl rfl rfl
   obtain ⟨s', hs'⟩ := write_enabled hi' del k v rot
-  refine ⟨s', by simpa [step] using hs', ?_⟩
+  refine ⟨s', by simpa [step, blocked] using hs', ?_⟩
   intro k'
   obtain ⟨hinv', hent, _, hlev, hlat⟩ := write_inv hi' hs'
   obtain ⟨ps, hm, _, hfl⟩ := hi.parts
@@ -251,19 +251,23 @@ every action and re-established for a restored instance. -/
 right after `open id` the database contains exactly the writes made before the `Checkpoint(id)` call (none missing,
 no later one visible), afterwards those plus the writes of the restored instance, whatever flushes, compactions,
 checkpoints, retention updates and crashes happen in between. -/
-theorem restore_is_spec (as : List Act) (s : State) (sp : SpecSt) (h : runSpec {} {} as = some (s, sp)) (k : Bytes) :
+theorem restore_is_spec (as : List Act) (s : State) (sp : SpecSt) (h : runSpec {} {} as = some (s, sp))
+    (hrep : s.replaying = []) (k : Bytes) :
     answer (Lsm.get s.db k) = answer (Lsm.Spec.get sp.m k) := by
   obtain ⟨mL, hL, _, hA⟩ := (sinv_run as {} s {} sp sinv_init h).lsm
+  rw [hrep] at hA
   rw [get_eq_spec hL k]; exact hA k
 
 /-- **Every prefix scan follows the specification** in the same sense: ascending keys, each live key of the expected
 map with the prefix exactly once with its expected value, nothing else. -/
 theorem restore_scan_is_spec (as : List Act) (s : State) (sp : SpecSt) (h : runSpec {} {} as = some (s, sp))
-    (p : Bytes) :
+    (hrep : s.replaying = []) (p : Bytes) :
     ((Lsm.scan s.db p).map (fun e => (e.key, e.val))).Pairwise (fun a b => Bytes.lt a.1 b.1 = true) ∧
     ∀ k v, (k, v) ∈ (Lsm.scan s.db p).map (fun e => (e.key, e.val)) ↔
       (answer (Lsm.Spec.get sp.m k) = some v ∧ Bytes.hasPrefix k p = true) := by
-  obtain ⟨mL, hL, _, hA⟩ := (sinv_run as {} s {} sp sinv_init h).lsm
+  obtain ⟨mL, hL, _, hA'⟩ := (sinv_run as {} s {} sp sinv_init h).lsm
+  rw [hrep] at hA'
+  have hA : ∀ k, answer (Lsm.Spec.get mL k) = answer (Lsm.Spec.get sp.m k) := hA'
   obtain ⟨hsorted, hmem⟩ := Lsm.scan_spec hL p
   refine ⟨List.pairwise_map.mpr hsorted, ?_⟩
   intro k v
@@ -288,6 +292,27 @@ theorem restore_scan_is_spec (as : List Act) (s : State) (sp : SpecSt) (h : runS
       have hv : e.val = v := by simpa [answer, hd] using h1
       exact ⟨e, (hmem e).mpr ⟨by rw [hk]; exact hg, hd, by rw [hk]; exact h2⟩, hk, hv⟩
 
+/-- **The replay loop of `DB.Start` is not atomic**: `openBegin id` followed by one `replayOne` per WAL record, with
+flush begins / commits, compaction commits and written-but-uncommitted table files (`orphan`) at any point in between
+(the tasks the replay itself starts), reaches — once nothing is left to replay — a state whose every point read equals
+the map recorded at `Checkpoint(id)`: this is `restore_is_spec` for histories containing these actions, spelled out. A
+crash in the middle of the replay leaves the files of the checkpoint intact (`checkpoint_restore_partial` quantifies
+over such histories), so the restore can simply be repeated. -/
+theorem interleaved_replay_is_spec (as bg : List Act) (id : Nat) (s₀ s : State) (sp₀ sp : SpecSt)
+    (h0 : runSpec {} {} as = some (s₀, sp₀))
+    (h : runSpec s₀ sp₀ (.openBegin id :: bg) = some (s, sp)) (hrep : s.replaying = [])
+    (k : Bytes) :
+    answer (Lsm.get s.db k) = answer (Lsm.Spec.get sp.m k) := by
+  have hall : runSpec {} {} (as ++ (.openBegin id :: bg)) = some (s, sp) := by rw [runSpec_append, h0]; exact h
+  exact restore_is_spec _ s sp hall hrep k
+
+/-- the replay can always make its next step: nothing that happens in between disables it -/
+theorem replay_never_stuck (as : List Act) (s : State) (h : run {} as = some s) (halive : s.alive = true)
+    (r : Wal.Rec) (rs : List Wal.Rec) (hr : s.replaying = r :: rs) (rot : Bool) :
+    ∃ s', step s (.replayOne rot) = some s' ∧ s'.replaying = rs := by
+  obtain ⟨s1, h1⟩ := write_enabled (inv_run as {} s init_inv h) r.del r.key r.val rot
+  exact ⟨{ s1 with replaying := rs }, by simp [step, halive, blocked, hr, h1], rfl⟩
+
 /-- The statement of the property in one line: history `as₁`, `Checkpoint(id)`, anything afterwards (`as₂`, without
 reusing the id), restore from `id`: the expected map of the restored instance is the expected map at the call. -/
 theorem checkpoint_restore_spec (as₁ as₂ : List Act) (id : Nat) (rots : List Nat) (s₁ r : State) (sp₁ spr : SpecSt)
@@ -295,7 +320,7 @@ theorem checkpoint_restore_spec (as₁ as₂ : List Act) (id : Nat) (rots : List
     (h : runSpec {} {} (as₁ ++ (.checkpoint id :: as₂ ++ [.open id rots])) = some (r, spr))
     (hno : ∀ a ∈ as₂, a = Act.checkpoint id → False) :
     spr.m = sp₁.m ∧ ∀ k, answer (Lsm.get r.db k) = answer (Lsm.Spec.get sp₁.m k) := by
-  have hm : spr.m = sp₁.m := by
+  have hm : spr.m = sp₁.m ∧ r.replaying = [] := by
     rw [runSpec_append, h1] at h
     simp only [List.cons_append, runSpec] at h
     split at h
@@ -317,13 +342,15 @@ theorem checkpoint_restore_spec (as₁ as₂ : List Act) (id : Nat) (rots : List
             | some r' =>
               rw [hst3] at h
               simp only [Option.some.injEq, Prod.mk.injEq] at h
-              rw [← h.2]
-              simp only [stepSpec]
-              rw [saved_keep id as₂ s₂ s₃ _ sp₃ hno h2]
-              exact specAt_cons_eq _ _ _
+              refine ⟨?_, ?_⟩
+              · rw [← h.2]
+                simp only [stepSpec]
+                rw [saved_keep id as₂ s₂ s₃ _ sp₃ hno h2]
+                exact specAt_cons_eq _ _ _
+              · rw [← h.1]; exact open_replaying_nil hst3
           · cases h
     · cases h
-  exact ⟨hm, fun k => by rw [← hm]; exact restore_is_spec _ r spr h k⟩
+  exact ⟨hm.1, fun k => by rw [← hm.1]; exact restore_is_spec _ r spr h hm.2 k⟩
 
 /-! ## the user's handles (defect D50)
 
@@ -405,6 +432,19 @@ example :
         pure (answer (Lsm.get s.db [107]), answer (Lsm.Spec.get sp.m [107]), answer (Lsm.get s.db [108]),
               answer (Lsm.Spec.get sp.m [108])))
       = some (some [1], some [1], some [2], some [2]) := by
+  rfl
+
+/-- non-vacuity of the non-atomic replay: two unflushed writes in the checkpoint's WAL; the restore replays the first
+(the memtable rotates), the flush task it started begins and commits, the process crashes, the restore starts again,
+a flush commits between the two replayed records; the result is the map at the call -/
+example :
+    (do let (s, sp) ← runSpec {} {} [.write false [107] [1] false, .write false [108] [2] false, .checkpoint 1,
+          .write false [107] [9] false, .saveWal 1, .saveDoc 1, .crash,
+          .openBegin 1, .replayOne true, .flushBegin 1, .flushCommit, .crash,
+          .openBegin 1, .replayOne true, .flushBegin 1, .orphan 7 [], .flushCommit, .replayOne false]
+        pure (s.replaying.length, (s.db.levels.headD []).length, answer (Lsm.get s.db [107]),
+              answer (Lsm.get s.db [108]), answer (Lsm.Spec.get sp.m [107])))
+      = some (0, 1, some [1], some [2], some [1]) := by
   rfl
 
 end Rxn.C08
